@@ -2910,8 +2910,19 @@ func (db *DatabaseCollectionWithUser) updateAndReturnDoc(ctx context.Context, do
 			}
 
 			isNewDocCreation = currentValue == nil
+			storedSequence := doc.Sequence
+			priorUnusedSequences := unusedSequences
 			updatedDoc.Expiry, newRevID, storedDoc, oldBodyJSON, unusedSequences, changedAccessPrincipals, changedRoleAccessUsers, createNewRevIDSkipped, err = db.documentUpdateFunc(ctx, !isNewDocCreation, doc, allowImport, docSequence, unusedSequences, callback, expiry, docUpdateEvent)
 			if err != nil {
+				// A failure after a sequence was assigned must not abandon it (or the ones set aside by earlier
+				// attempts): remember them so they are released below.
+				if doc.Sequence != storedSequence {
+					if docSequence > 0 && docSequence != doc.Sequence {
+						priorUnusedSequences = append(priorUnusedSequences, docSequence)
+					}
+					docSequence = doc.Sequence
+				}
+				unusedSequences = priorUnusedSequences
 				return
 			}
 			// If importing and the sync function has modified the expiry, allow sgbucket.MutateInOptions to modify the expiry
